@@ -61,12 +61,25 @@ class RL:
                             kids.append(k)
                 if kids:
                     work += kids
-                elif fb not in self.windows:
+                elif fb not in self.windows and self.self_adt(fb) and facts.adt(self.self_adt(fb)) is not None:
+                    # a window state is a method of a state struct; a free helper with the same return type
+                    # (e.g. the shared "wait or reject" tail) is analysed inlined into the states that use it
+                    self.windows.append(fb)
+            # a state whose only same-typed callees are free helpers is a leaf itself
+            for d in sorted(seen):
+                fb = facts.bodies.get(d)
+                if fb is None or fb in self.windows or not (self.self_adt(fb) and facts.adt(self.self_adt(fb)) is not None):
+                    continue
+                kids = [facts.bodies.get(x) for c in graph(fb).calls() for x in c.targets_def()]
+                kids = [k for k in kids if k is not None and k.crate.name == CRATE and k.kind == "fn" and k.local_ty(0)["s"] == rty and k is not fb]
+                if kids and all(not (self.self_adt(k) and facts.adt(self.self_adt(k)) is not None) for k in kids):
                     self.windows.append(fb)
             self.windows.sort(key=lambda b: b.def_)
         self.ok = bool(self.tcalls)
 
     def self_adt(self, body):
+        if body.arg_count < 1:
+            return None
         t = body.local_ty(1)
         while t.get("k") == "ref":
             t = body.types[t["args"][0]]
